@@ -646,14 +646,101 @@ def check_C12(tier, seed, res, builtins, log):
             violations.append({'definition': corpus.lexer_text(d) + ''.join('\n' + corpus.lexer_text(e) for e in extra.get(d['name'], [])),
                                'def_json': pipeline.def_to_json(d), 'input': None, 'script': None, 'site': 'expansion',
                                'what': 'well-formed definition (shape list) does not expand/compile (%s): %s' % (st['build'], st.get('detail', '')[:400])})
+    v5, n_hv = check_header_variants(log)
+    violations += v5
     dbl = [pr['double'] for pr in res['programs'].values() if pr['double']]
-    cov = {'programs': n + len(shapes), 'evaluations': n + len(shapes), 'distinct_nontrivial': len(set(tuple(pr['def']) for pr in res['programs'].values())),
+    cov = {'programs': n + len(shapes) + n_hv, 'evaluations': n + len(shapes) + n_hv, 'header_variants_compiled': n_hv, 'distinct_nontrivial': len(set(tuple(pr['def']) for pr in res['programs'].values())),
            'double_expansions_compared': len(dbl), 'double_expansions_equal': dbl.count('same'),
            'expansion_ms_max': max(times) if times else None, 'expansion_ms_median': sorted(times)[len(times) // 2] if times else None,
            'rule': 'every corpus definition expanded by rustc under a watchdog; %d re-expanded into a second dump and compared (code text and artefacts); compile-shape list' % len(dbl),
            'samples': [{'definition': res['programs'][k]['text'], 'time_ms': res['programs'][k]['time_ms']} for k in list(res['programs'])[:2]]}
     return {'violations': violations[:8], 'unresolved': unresolved[:4], 'coverage': cov,
             'assumptions': ['rustc accepting the generated code and wall-clock time are observed on the corpus, not proved']}
+
+
+
+def header_variant_modules():
+    """raw-text lexer definitions that vary what the corpus keeps fixed — user state (none, plain, with lifetimes, two lifetimes), token and
+    error types with and without `'input`, visibility, attributes — each combined with ALL FOUR rule kinds, a right context and rule sets.
+    Every module must compile on a correct tree (C12: the generated code compiles whatever the header)."""
+    rules = """
+        rule Init {
+            [' ' '\\t'],
+            'a' = %(TOK_A)s,
+            'b'+ > 'c' = %(TOK_A)s,
+            ['c'-'e']+ => |lexer| { let m = lexer.match_(); %(USE_STATE)s lexer.return_(%(TOK_M)s) },
+            ['0'-'9']+ =? |lexer| { let m = lexer.match_(); if m.len() > 3 { lexer.return_(Err(%(ERR_M)s)) } else { lexer.return_(Ok(%(TOK_M)s)) } },
+            '[' => |lexer| lexer.switch(%(NAME)sRule::In),
+        }
+        rule In {
+            ']' => |lexer| lexer.switch_and_return(%(NAME)sRule::Init, %(TOK_A)s),
+            'x' = %(TOK_A)s,
+            _ ,
+        }
+    """
+    flat = """
+        [' ' '\\t'],
+        'a' = %(TOK_A)s,
+        'b'+ > ('c' | $) = %(TOK_A)s,
+        ['c'-'e']+ => |lexer| { let m = lexer.match_(); %(USE_STATE)s lexer.return_(%(TOK_M)s) },
+        ['0'-'9']+ =? |lexer| { let m = lexer.match_(); if m.len() > 3 { lexer.return_(Err(%(ERR_M)s)) } else { lexer.return_(Ok(%(TOK_M)s)) } },
+    """
+    variants = []
+    states = [('', '', ''), ('(u32)', '', '*lexer.state() += 1;'), ("(Buf<'a>)", "pub struct Buf<'a> { pub b: &'a mut String }", 'lexer.state().b.push_str(m);'),
+              ("(Two<'a, 'b>)", "pub struct Two<'a, 'b> { pub x: &'a str, pub y: &'b mut usize }", '*lexer.state().y += lexer.state().x.len();')]
+    toks = [('Tok', "#[derive(Debug, Clone, PartialEq)] pub enum Tok { A, M(usize) }", 'Tok::A', 'Tok::M(m.len())'),
+            ("TokI<'input>", "#[derive(Debug, Clone, PartialEq)] pub enum TokI<'i> { A, M(&'i str) }", 'TokI::A', 'TokI::M(m)')]
+    errs = [('u32', '', '7u32'), ("ErrI<'input>", "#[derive(Debug, Clone, PartialEq)] pub struct ErrI<'i>(pub &'i str);", 'ErrI(m)')]
+    vis = ['', 'pub ', 'pub(crate) ']
+    k = 0
+    for si, (st_hdr, st_decl, use_state) in enumerate(states):
+        for ti, (tok_ty, tok_decl, tok_a, tok_m) in enumerate(toks):
+            for ei, (err_ty, err_decl, err_m) in enumerate(errs):
+                for body_kind, body in (('sets', rules), ('flat', flat)):
+                    name = 'Hv%d' % k
+                    sub = {'TOK_A': tok_a, 'TOK_M': tok_m, 'ERR_M': err_m, 'USE_STATE': use_state, 'NAME': name}
+                    attr = '#[derive(Debug)]\n        ' if (k % 3 == 0 and 'mut' not in st_decl) else ''
+                    text = ('#![allow(dead_code, unused)]\nuse lexgen::lexer;\n%s\n%s\n%s\nlexer! {\n        %s%s%s%s -> %s;\n        type Error = %s;\n%s\n}\n'
+                            % (st_decl, tok_decl, err_decl, attr, vis[k % 3], name, st_hdr, tok_ty, err_ty, body % sub))
+                    variants.append((name, 'state=%s token=%s error=%s body=%s vis=%r' % (st_hdr or 'none', tok_ty, err_ty, body_kind, vis[k % 3]), text))
+                    k += 1
+    return variants
+
+
+def check_header_variants(log):
+    """compile (cargo check) every header variant with the real macro; returns (violations, n)"""
+    work = pipeline.scratch_dir()
+    ws = os.path.join(work, 'ws_hv')
+    if os.path.exists(ws):
+        shutil.rmtree(ws)
+    os.makedirs(os.path.join(ws, 'hv', 'src'))
+    open(os.path.join(ws, 'Cargo.toml'), 'w').write('[workspace]\nresolver = "2"\nmembers = ["hv"]\n[profile.dev]\ndebug = 0\n')
+    lock = os.path.join(corpus.REPO, 'Cargo.lock')
+    if os.path.exists(lock):
+        shutil.copy(lock, os.path.join(ws, 'Cargo.lock'))
+    open(os.path.join(ws, 'hv', 'Cargo.toml'), 'w').write(
+        '[package]\nname = "hv"\nversion = "0.1.0"\nedition = "2021"\n[dependencies]\nlexgen = { path = "%s/crates/lexgen", features = ["verif_hooks"] }\n'
+        'lexgen_util = { path = "%s/crates/lexgen_util" }\n' % (corpus.REPO, corpus.REPO))
+    variants = header_variant_modules()
+    for name, _desc, text in variants:
+        open(os.path.join(ws, 'hv', 'src', name.lower() + '.rs'), 'w').write(text)
+    open(os.path.join(ws, 'hv', 'src', 'lib.rs'), 'w').write('\n'.join('mod %s;' % name.lower() for name, _, _ in variants) + '\n')
+    env = corpus.cargo_env({'CARGO_TARGET_DIR': pipeline.shared_target()})
+    rc, out, secs = corpus.run(['cargo', 'check', '--offline', '-q', '-p', 'hv', '--message-format', 'short'], cwd=ws, env=env, timeout=900)
+    violations = []
+    if rc != 0:
+        bad = {}
+        for m in re.finditer(r'hv/src/(hv\d+)\.rs:\d+:\d+: error[^\n]*', out):
+            bad.setdefault(m.group(1), m.group(0))
+        for name, desc, text in variants:
+            if name.lower() in bad and len(violations) < 4:
+                violations.append({'definition': text, 'input': None, 'script': None, 'site': 'expansion (header variants)',
+                                   'what': 'well-formed definition does not compile (%s): %s' % (desc, bad[name.lower()][:300])})
+        if not violations:
+            violations.append({'definition': None, 'input': None, 'script': None, 'site': 'expansion (header variants)',
+                               'what': 'header-variant crate does not build: ' + out[-500:]})
+    shutil.rmtree(ws, ignore_errors=True)
+    return violations, len(variants)
 
 
 def compile_shapes():
@@ -1320,6 +1407,12 @@ def mutate_illformed(d, rng):
             na = ('ruleset', a[1], [('let', 'localv', ('chr', 97))] + a[2])
             nb = ('ruleset', b[1], b[2] + [('rule', 'simple', ('var', 'localv'), None)])
             out.append(('local_var_leak', with_items(items[:first] + [na] + items[first + 1:last] + [nb] + items[last + 1:])))
+            # the same, with the variable used in textually identical positions of both rule sets: in a right context, under `#`, under `*`
+            for tag, use in (('ctx', lambda v: ('rule', 'simple', ('chr', 112), v)), ('diff', lambda v: ('rule', 'simple', ('diff', ('any',), v), None)),
+                             ('star', lambda v: ('rule', 'simple', ('cat', ('chr', 113), ('star', v)), None)), ('ctxdiff', lambda v: ('rule', 'simple', ('chr', 114), ('diff', ('any',), v)))):
+                na2 = ('ruleset', a[1], [('let', 'localv', ('chr', 97)), use(('var', 'localv'))] + a[2])
+                nb2 = ('ruleset', b[1], b[2] + [use(('var', 'localv'))])
+                out.append(('local_var_leak_' + tag, with_items(items[:first] + [na2] + items[first + 1:last] + [nb2] + items[last + 1:])))
     out.append(('dup_error_type', with_items([('errortype',)] + items)))
     # variable used before... (lazy lookup: a let *after* the rule is unbound at the rule)
     if rules_pos:
